@@ -39,7 +39,7 @@ class TlcResult:
 
 _GEN = re.compile(r'(\d+) states generated, (\d+) distinct states found')
 _DEPTH = re.compile(r'The depth of the complete state graph search is (\d+)')
-_COV = re.compile(r'^<(\w+) line \d+, col \d+ to line \d+, col \d+ of module (\w+)>: (\d+):(\d+)', re.M)
+_COV = re.compile(r'^<(\w+) line \d+, col \d+ to line \d+, col \d+ of module (\w+)(?: \([\d ]+\))?>: (\d+):(\d+)', re.M)
 _VIOL = re.compile(r'Error: (?:Invariant|Action property|Temporal property|Property) (\S+) (?:is|was) violated')
 
 
